@@ -47,13 +47,54 @@ def is_fv(o):
     return type(o).__name__ == "FieldVector" and hasattr(o, "two_norm2")
 
 
+def is_dv(o):
+    return type(o).__name__ == "DynamicVector" and hasattr(o, "two_norm2")
+
+
+DYNF_SRC = """
+#include <config.h>
+#include <dune/python/common/typeregistry.hh>
+#include <dune/python/common/dynvector.hh>
+#include <dune/python/pybind11/pybind11.h>
+// DynamicVector<float> bound with registerDynamicVector of the CHECKED tree's dynvector.hh / densevector.hh
+// (dune.common.DynamicVector = DynamicVector<double> lives in the prebuilt _common.so of /repo/_build)
+PYBIND11_MODULE( c20dynf, module )
+{
+  Dune::Python::addToTypeRegistry<float>(Dune::Python::GenerateTypeName("float"));
+  Dune::Python::registerDynamicVector<float>(module);
+}
+"""
+_dynf = []
+
+
+def dyn_class(jit):
+    if not jit:
+        return dc.DynamicVector
+    if not _dynf:
+        from dune.generator import builder
+        D = builder.load("c20dynf", DYNF_SRC, "c20dynf").DynamicVector
+        # what python/dune/common/__init__.py does to dune.common.DynamicVector, if anything, is done to this class too
+        for name in ("__getitem__", "__setitem__"):
+            w = dc.DynamicVector.__dict__.get(name)
+            if w is not None and type(w).__name__ == "function":
+                setattr(D, "_" + name.strip("_"), getattr(D, name))
+                setattr(D, name, w)
+        _dynf.append(D)
+    return _dynf[0]
+
+
 def vals_of(o):
+    if is_dv(o):
+        g = getattr(o, "_getitem", None) or o.__getitem__
+        return [g(i) for i in range(len(o))]
     if is_fv(o):
         return [o._getitem(i) if hasattr(o, "_getitem") else o[i] for i in range(len(o))]
     return [x for x in o.tolist()]
 
 
 def objstr(o):
+    if is_dv(o):
+        return "d[" + ",".join(fr(x) for x in vals_of(o)) + "]"
     if is_fv(o):
         return "v[" + ",".join(fr(x) for x in vals_of(o)) + "]"
     if isinstance(o, np.ndarray) and o.ndim == 1:
@@ -174,7 +215,7 @@ def result(R, res, operand=None):
         return "=r%d" % operand
     if isinstance(res, (bool, np.bool_)):
         return "b:%d" % (1 if res else 0)
-    if is_fv(res) or (isinstance(res, np.ndarray) and res.ndim == 1):
+    if is_fv(res) or is_dv(res) or (isinstance(res, np.ndarray) and res.ndim == 1):
         for k, o in enumerate(R):
             if o is res:
                 R.append(res)
@@ -188,10 +229,12 @@ def result(R, res, operand=None):
     return "?" + type(res).__name__
 
 
-def step(R, t):
+def step(R, t, dyn=None):
     op = t[0]
     r = int(t[1]) if len(t) > 1 and op != "new" else None
     if op == "new":
+        if dyn is not None:
+            return result(R, dyn([num(v) for v in qlist(t[3])]))
         return result(R, construct(int(t[1]), t[2], qlist(t[3])))
     x = R[r]
     if op == "view":
@@ -261,7 +304,8 @@ def step(R, t):
     if op == "norm22":
         n2, n = x.two_norm2, x.two_norm
         # two_norm is observed relative to two_norm2 (sqrt is correctly rounded in libm and in Python)
-        return "s:" + fr(n2) + ("" if n == math.sqrt(n2) else "(two_norm=%r)" % n)
+        ok = n == math.sqrt(n2) or float(np.float32(n)) == float(np.sqrt(np.float32(n2)))      # float entries: sqrt in float
+        return "s:" + fr(n2) + ("" if ok else "(two_norm=%r)" % n)
     if op == "norminf": return "s:" + fr(x.infinity_norm)
     return "UNKNOWN-OP"
 
@@ -319,14 +363,17 @@ def run_case(line):
         return tv_case(line)
     R, toks = [], []
     is_npv = line.startswith("npv")
-    if is_npv:
+    dyn = None
+    if line.startswith("dyn"):
+        dyn = dyn_class(line.startswith("dynj"))
+    if is_npv or dyn is not None:
         line = line.split(";", 1)[1]
     for s in line.split(";"):
         t = s.split()
         if not t:
             continue
         try:
-            o = npv_step(R, t) if is_npv else step(R, t)
+            o = npv_step(R, t) if is_npv else step(R, t, dyn)
         except (IndexError, TypeError, ValueError, RuntimeError, ZeroDivisionError, AttributeError, OverflowError) as e:
             o = "!" + type(e).__name__
         if t[0] in MUTATING:
@@ -351,6 +398,8 @@ def main():
         for a in sys.argv[2:]:
             if a == "npv":
                 npv(np.zeros(2), 0)
+            elif a == "dynj":
+                dyn_class(True)
             elif a.startswith("tv"):
                 dc.TupleVector(tv_elems(a))
             else:
